@@ -148,7 +148,12 @@ pub fn parse_file(
 
     debug!("parsing file `{}`", file_path.display());
     let program = parser_logic::parse_file(&file_content, file_id)?;
-    match check_compiler_version(file_path, program.compiler_version, compiler_version) {
+    match check_file_compiler_version(
+        file_path,
+        Some(file_id),
+        program.compiler_version,
+        compiler_version,
+    ) {
         Ok(warnings) => reports.extend(warnings),
         Err(error) => reports.push(*error),
     }
@@ -170,8 +175,18 @@ fn open_file(file_path: &PathBuf) -> Result<(String, String), Box<Report>> /* pa
         .map_err(|error| Box::new(error.into_report()))
 }
 
+#[cfg_attr(not(test), allow(dead_code))]
 fn check_compiler_version(
     file_path: &Path,
+    required_version: Option<Version>,
+    compiler_version: &Version,
+) -> Result<ReportCollection, Box<Report>> {
+    check_file_compiler_version(file_path, None, required_version, compiler_version)
+}
+
+fn check_file_compiler_version(
+    file_path: &Path,
+    file_id: Option<FileID>,
     required_version: Option<Version>,
     compiler_version: &Version,
 ) -> Result<ReportCollection, Box<Report>> {
@@ -194,6 +209,7 @@ fn check_compiler_version(
     } else {
         let report = NoCompilerVersionWarning::produce_report(NoCompilerVersionWarning {
             path: format!("{}", file_path.display()),
+            file_id,
             version: *compiler_version,
         });
         Ok(vec![report])
